@@ -25,7 +25,8 @@ Theorem top_bit_length_refused c s b0 b1 len rest :
   N.land b1 127 = 127 -> 2^63 <= len -> len < 2^64 ->
   hdr_reject c (rfin s) b0 b1 = false ->
   exists s', advance_frame c s = (AErr RReadLimit, s') /\
-    wlog s' = wlog s /\ hlog s' = hlog s /\ hcount s' = hcount s /\ closesent s' = closesent s /\
+    wlog s' = (if closesent s then wlog s else wlog s ++ [WCloseTooBig]) /\
+    hlog s' = hlog s /\ hcount s' = hcount s /\ closesent s' = true /\
     pending (br s') = rest /\ binv (br s') /\ outoffuel s' = outoffuel s.
 Proof.
   intros Hinv Hbs Hrem Hp H127 Hlo Hhi Hrej.
@@ -49,7 +50,9 @@ Proof.
   rewrite Hrd2. cbv beta iota.
   rewrite be_roundtrip by (change (256 ^ N.of_nat 8) with (2^64); exact Hhi).
   replace (2^63 <=? len) with true by lia.
-  eexists. split; [reflexivity|]. rsimpl. auto 10.
+  eexists. split; [reflexivity|]. unfold send.
+  change (closesent (s2 <| br := b2 |>)) with (closesent s2). rewrite E5.
+  destruct (closesent s) eqn:Ecs; rsimpl; rewrite ?E2, ?E3, ?E4, ?E5, ?E6; auto 10.
 Qed.
 
 Opaque aas2 aas3.
@@ -144,7 +147,7 @@ Proof.
 Qed.
 
 (* a frame whose two header bytes are fine but whose 64-bit length has the top bit set: the
-   read fails with ErrReadLimit, and here NO close frame is sent *)
+   read fails with ErrReadLimit and the 1009 close frame is sent *)
 Theorem top_bit_after_prefix :
   forall inflate c b fs b0 b1 len junk,
     custom_handlers c = false -> binv b -> (125 <= bsize b)%nat ->
@@ -156,26 +159,25 @@ Theorem top_bit_after_prefix :
     exists s',
       run_ops inflate c (init_rst b) (repeat OReadMessage (S (length ms))) =
         (map out_of ms ++ [RMsg 0 [] (Some RReadLimit)], s') /\
-      closesent s' = false /\
-      stopped inflate c s' RReadLimit (map WPong (pings_of fs)) junk.
+      closesent s' = true /\
+      stopped inflate c s' RReadLimit (map WPong (pings_of fs) ++ [WCloseTooBig]) junk.
 Proof.
   intros inflate c b fs b0 b1 len junk Hch Hinv Hbs Hconf H0 H1 Hv H127 Hlo Hhi Hp ms.
   set (Post := fun s1 s2 : rst =>
-    wlog s2 = wlog s1 /\ closesent s2 = closesent s1 /\
-    hlog s2 = hlog s1 /\ pending (br s2) = junk /\ outoffuel s2 = outoffuel s1).
+    wlog s2 = wlog s1 ++ [WCloseTooBig] /\ closesent s2 = true /\
+    hlog s2 = hlog s1 /\ pending (br s2) = junk /\ outoffuel s2 = false).
   destruct (prefix_then_fail inflate c b fs (b0 :: b1 :: be_enc 8 len ++ junk) RReadLimit Post
               Hch Hinv Hbs Hconf Hp) as (s1 & s2 & sF & Hrun & Hrinv1 & Hrem1 & Hfin1 & Hp1 & Hwl1 & Hhl1 & Hhc1 & Hop1 & Hadv & HPost & HsF).
   { discriminate. }
   { intros s Hrinv Hrem Hfin Hps.
-    pose proof Hrinv as (Bi & Bs & _).
+    pose proof Hrinv as (Bi & Bs & _ & _ & Boof & Bcs & _).
     destruct (top_bit_length_refused c s b0 b1 len junk Bi Bs Hrem Hps)
       as (s2 & Ha & A1 & A2 & A3 & A4 & A5 & A6 & A7); try assumption.
     - rewrite land_127_mod. exact H127.
     - rewrite (hdr_reject_iff_violates c (rfin s) b0 b1 H0 H1), Hfin. exact Hv.
-    - exists s2. split; [exact Ha|]. unfold Post. auto. }
+    - exists s2. split; [exact Ha|]. unfold Post. rewrite Bcs in A1. rewrite A7, Boof. auto. }
   destruct HPost as (P1 & P2 & P3 & P4 & P5).
-  pose proof Hrinv1 as (_ & _ & _ & _ & Boof & Bcs & _).
-  exists sF. split; [exact Hrun|]. split; [rewrite HsF; rsimpl; congruence|].
+  exists sF. split; [exact Hrun|]. split; [rewrite HsF; exact P2|].
   apply stopped_intro; rewrite HsF; rsimpl; try congruence; reflexivity.
 Qed.
 
@@ -343,11 +345,11 @@ Example bad_close_run :
   close_body_bad (be_enc 2 1005) = true.
 Proof. vm_compute. repeat split; reflexivity. Qed.
 
-(* 64-bit length with the top bit set: ErrReadLimit and no close frame *)
+(* 64-bit length with the top bit set: ErrReadLimit and the 1009 close frame *)
 Example top_bit_run :
   let r := run cfgd (encode_frames fs1 ++ 130 :: 255 :: be_enc 8 (2^63 + 5) ++ [1;2;3]) 3 in
   fst r = map out_of (data_msgs (events_of fs1)) ++ [RMsg 0 [] (Some RReadLimit)] /\
-  wlog (snd r) = [WPong [104;105]; WPong [1;2;3]; WPong [5]] /\ closesent (snd r) = false /\
+  wlog (snd r) = [WPong [104;105]; WPong [1;2;3]; WPong [5]; WCloseTooBig] /\ closesent (snd r) = true /\
   pending (br (snd r)) = [1;2;3].
 Proof. vm_compute. repeat split; reflexivity. Qed.
 
